@@ -97,10 +97,13 @@ class Report:
             extra = dict(extra, follows=True)  # travels with the finding when another report restates (absorbs) it
         self.findings.append(Finding(rule, module, qualname, construct, message, where, extra))
 
-    def check(self, cond: bool, rule: str, module: str, qualname: str, construct: str, message: str, where: str = "", detail: str = "", definite: bool = False, reads_shape: bool = False) -> bool:
-        """definite: a failing instance names a construct that is positively wrong (not an expected construct that was not found), see sa/delegation.py."""
+    def check(self, cond: bool, rule: str, module: str, qualname: str, construct: str, message: str, where: str = "", detail: str = "", definite: bool = False, reads_shape: bool = False, also: tuple = ()) -> bool:
+        """definite: a failing instance names a construct that is positively wrong (not an expected construct that was not found), see sa/delegation.py.
+        also: further (module, qualname) pairs whose statements the instance was derived from (the finding is withheld when any of them changed shape)."""
         if cond:
             self.ok(rule, construct, detail)
+        elif also:
+            self.violation(rule, module, qualname, construct, message, where, also=[list(a) for a in also], **({"follows": False} if reads_shape else {}))
         elif definite:
             self.violation(rule, module, qualname, construct, message, where, definite=True)
         elif reads_shape:
@@ -117,7 +120,7 @@ class Report:
         n_ok = sum(st.discharged for rid, st in sub.rules.items() if rid in only_rules)
         for f in sub.findings:
             if f.rule in only_rules:
-                self.violation(rule, f.module, f.qualname, f"[{f.rule}] {f.construct}", f.message, f.where, **{k: v for k, v in f.extra.items() if k in ("definite", "follows")})
+                self.violation(rule, f.module, f.qualname, f"[{f.rule}] {f.construct}", f.message, f.where, **{k: v for k, v in f.extra.items() if k in ("definite", "follows", "also")})
         if n_ok:
             st = self._touch(rule)
             st.instances += n_ok
@@ -182,6 +185,8 @@ class Report:
                     continue
                 follows = bool(f.extra.get("follows", f.rule in self.follows))
                 helpers = delegation.shape_changes(load_package(), f.module, f.qualname, touched if follows else set(), only_helpers=follows)
+                for am, aq in f.extra.get("also", []):
+                    helpers = helpers + [f"{aq}: {h}" for h in delegation.shape_changes(load_package(), am, aq, touched if follows else set(), only_helpers=follows)]
                 if helpers:
                     withheld.append(f)
                     self.defer_error(f"{f.where or f.module}: rule {f.rule} expected its construct in {f.qualname}, which changed shape ({'; '.join(helpers[:3])}): not decided for this shape [{f.message[:160]}]")
